@@ -12,6 +12,7 @@ import (
 	"math/rand/v2"
 	"os"
 	"sort"
+	"strings"
 	"sync"
 
 	"github.com/cockroachdb/pebble/v2/vfs"
@@ -46,9 +47,9 @@ type crashPoint struct {
 type simDisk struct {
 	mem *vfs.MemFS
 
-	mu       sync.Mutex
-	ops      int  // mutating calls so far
-	cloning  bool // take crash clones before every mutating call
+	mu       sync.Mutex // serialises every mutating call (and the clones taken before it)
+	ops      int        // mutating calls so far
+	cloning  bool       // take crash clones before every mutating call
 	tornSeed uint64
 	tornPct  int
 	points   []*crashPoint
@@ -56,10 +57,14 @@ type simDisk struct {
 	// is called with mu held from whichever goroutine performs the disk call.
 	snapshot func() (int, []chanExpect)
 	kinds    map[string]int
+	// synced is the content each file had at its last fsync, kept by path
+	// (MemFS does not expose it); the torn image is built from it.
+	synced map[string][]byte
+	open   map[*gateFile]struct{}
 }
 
 func newSimDisk() *simDisk {
-	d := &simDisk{mem: vfs.NewCrashableMem(), kinds: map[string]int{}}
+	d := &simDisk{mem: vfs.NewCrashableMem(), kinds: map[string]int{}, synced: map[string][]byte{}, open: map[*gateFile]struct{}{}}
 	// the data directory exists (durably) long before the store is opened
 	d.mem.MkdirAll("/db", 0o755)
 	if root, err := d.mem.OpenDir("/"); err == nil {
@@ -69,8 +74,9 @@ func newSimDisk() *simDisk {
 	return d
 }
 
-// before is called ahead of every mutating call.
-func (d *simDisk) before(kind string) {
+// gate runs one mutating call: it is numbered, the disk is cloned before it
+// (in cloning mode) and op is applied, all under the disk mutex.
+func (d *simDisk) gate(kind string, op func()) {
 	d.mu.Lock()
 	defer d.mu.Unlock()
 	d.kinds[kind]++
@@ -78,6 +84,7 @@ func (d *simDisk) before(kind string) {
 		d.takeLocked(kind)
 	}
 	d.ops++
+	op()
 }
 
 func (d *simDisk) takeLocked(kind string) {
@@ -91,8 +98,8 @@ func (d *simDisk) takeLocked(kind string) {
 	// each other, a disk model Pebble does not claim to survive (it publishes a
 	// new MANIFEST and its marker with ONE directory sync). The torn image keeps
 	// the directory as written and tears file data only; it is built here,
-	// deterministically, from the two exact clones.
-	cp.clones[crashTorn] = tornImage(cp.clones[crashKill], cp.clones[crashPower], d.tornPct, rand.New(rand.NewPCG(d.tornSeed, uint64(d.ops)+1)))
+	// deterministically, from the kill clone and the synced-content journal.
+	cp.clones[crashTorn] = tornImage(cp.clones[crashKill], d.synced, d.tornPct, rand.New(rand.NewPCG(d.tornSeed, uint64(d.ops)+1)))
 	d.points = append(d.points, cp)
 }
 
@@ -119,6 +126,20 @@ func (d *simDisk) opCount() int {
 	return d.ops
 }
 
+func (d *simDisk) renamed(oldname, newname string) {
+	if v, ok := d.synced[oldname]; ok {
+		d.synced[newname] = v
+		delete(d.synced, oldname)
+	} else {
+		delete(d.synced, newname)
+	}
+	for f := range d.open {
+		if f.name == oldname {
+			f.name = newname
+		}
+	}
+}
+
 // fs returns the gated view of the disk handed to Pebble.
 func (d *simDisk) fs() vfs.FS { return &gateFS{FS: d.mem, d: d} }
 
@@ -127,96 +148,150 @@ type gateFS struct {
 	d *simDisk
 }
 
-func (g *gateFS) wrap(f vfs.File, err error, dir bool) (vfs.File, error) {
+func (g *gateFS) wrap(name string, f vfs.File, err error, dir bool) (vfs.File, error) {
 	if err != nil {
 		return nil, err
 	}
-	return &gateFile{File: f, d: g.d, dir: dir}, nil
+	gf := &gateFile{File: f, d: g.d, dir: dir, name: name}
+	if !dir {
+		g.d.open[gf] = struct{}{}
+	}
+	return gf, nil
 }
 
-func (g *gateFS) Create(name string, c vfs.DiskWriteCategory) (vfs.File, error) {
-	g.d.before("create")
-	f, err := g.FS.Create(name, c)
-	return g.wrap(f, err, false)
+func (g *gateFS) Create(name string, c vfs.DiskWriteCategory) (f vfs.File, err error) {
+	g.d.gate("create", func() {
+		f, err = g.FS.Create(name, c)
+		if err == nil {
+			g.d.synced[name] = nil
+		}
+		f, err = g.wrap(name, f, err, false)
+	})
+	return f, err
 }
 
-func (g *gateFS) Link(oldname, newname string) error {
-	g.d.before("link")
-	return g.FS.Link(oldname, newname)
+func (g *gateFS) Link(oldname, newname string) (err error) {
+	g.d.gate("link", func() {
+		if err = g.FS.Link(oldname, newname); err == nil {
+			g.d.synced[newname] = g.d.synced[oldname]
+		}
+	})
+	return err
 }
 
-func (g *gateFS) OpenReadWrite(name string, c vfs.DiskWriteCategory, opts ...vfs.OpenOption) (vfs.File, error) {
-	g.d.before("openrw")
-	f, err := g.FS.OpenReadWrite(name, c, opts...)
-	return g.wrap(f, err, false)
+func (g *gateFS) OpenReadWrite(name string, c vfs.DiskWriteCategory, opts ...vfs.OpenOption) (f vfs.File, err error) {
+	g.d.gate("openrw", func() {
+		f, err = g.FS.OpenReadWrite(name, c, opts...)
+		f, err = g.wrap(name, f, err, false)
+	})
+	return f, err
 }
 
 func (g *gateFS) OpenDir(name string) (vfs.File, error) {
 	f, err := g.FS.OpenDir(name)
-	return g.wrap(f, err, true)
+	if err != nil {
+		return nil, err
+	}
+	return &gateFile{File: f, d: g.d, dir: true, name: name}, nil
 }
 
-func (g *gateFS) Remove(name string) error {
-	g.d.before("remove")
-	return g.FS.Remove(name)
+func (g *gateFS) Remove(name string) (err error) {
+	g.d.gate("remove", func() {
+		if err = g.FS.Remove(name); err == nil {
+			delete(g.d.synced, name)
+		}
+	})
+	return err
 }
 
-func (g *gateFS) RemoveAll(name string) error {
-	g.d.before("removeall")
-	return g.FS.RemoveAll(name)
+func (g *gateFS) RemoveAll(name string) (err error) {
+	g.d.gate("removeall", func() {
+		if err = g.FS.RemoveAll(name); err == nil {
+			for p := range g.d.synced {
+				if p == name || strings.HasPrefix(p, name+"/") {
+					delete(g.d.synced, p)
+				}
+			}
+		}
+	})
+	return err
 }
 
-func (g *gateFS) Rename(oldname, newname string) error {
-	g.d.before("rename")
-	return g.FS.Rename(oldname, newname)
+func (g *gateFS) Rename(oldname, newname string) (err error) {
+	g.d.gate("rename", func() {
+		if err = g.FS.Rename(oldname, newname); err == nil {
+			g.d.renamed(oldname, newname)
+		}
+	})
+	return err
 }
 
-func (g *gateFS) ReuseForWrite(oldname, newname string, c vfs.DiskWriteCategory) (vfs.File, error) {
-	g.d.before("reuse")
-	f, err := g.FS.ReuseForWrite(oldname, newname, c)
-	return g.wrap(f, err, false)
+func (g *gateFS) ReuseForWrite(oldname, newname string, c vfs.DiskWriteCategory) (f vfs.File, err error) {
+	g.d.gate("reuse", func() {
+		f, err = g.FS.ReuseForWrite(oldname, newname, c)
+		if err == nil {
+			g.d.renamed(oldname, newname)
+		}
+		f, err = g.wrap(newname, f, err, false)
+	})
+	return f, err
 }
 
-func (g *gateFS) MkdirAll(dir string, perm os.FileMode) error {
-	g.d.before("mkdir")
-	return g.FS.MkdirAll(dir, perm)
+func (g *gateFS) MkdirAll(dir string, perm os.FileMode) (err error) {
+	g.d.gate("mkdir", func() { err = g.FS.MkdirAll(dir, perm) })
+	return err
 }
 
 func (g *gateFS) Unwrap() vfs.FS { return g.FS }
 
 type gateFile struct {
 	vfs.File
-	d   *simDisk
-	dir bool
+	d    *simDisk
+	dir  bool
+	name string
 }
 
-func (f *gateFile) Write(p []byte) (int, error) {
-	f.d.before("write")
-	return f.File.Write(p)
+func (f *gateFile) Write(p []byte) (n int, err error) {
+	f.d.gate("write", func() { n, err = f.File.Write(p) })
+	return n, err
 }
 
-func (f *gateFile) WriteAt(p []byte, off int64) (int, error) {
-	f.d.before("writeat")
-	return f.File.WriteAt(p, off)
+func (f *gateFile) WriteAt(p []byte, off int64) (n int, err error) {
+	f.d.gate("writeat", func() { n, err = f.File.WriteAt(p, off) })
+	return n, err
 }
 
-func (f *gateFile) Sync() error {
-	if f.dir {
-		f.d.before("syncdir")
-	} else {
-		f.d.before("sync")
+func (f *gateFile) syncLocked() error {
+	err := f.File.Sync()
+	if err == nil && !f.dir {
+		if data, ok := readAll(f.d.mem, f.name); ok {
+			f.d.synced[f.name] = data
+		}
 	}
-	return f.File.Sync()
+	return err
 }
 
-func (f *gateFile) SyncTo(length int64) (bool, error) {
-	f.d.before("syncto")
-	return f.File.SyncTo(length)
+func (f *gateFile) Sync() (err error) {
+	kind := "sync"
+	if f.dir {
+		kind = "syncdir"
+	}
+	f.d.gate(kind, func() { err = f.syncLocked() })
+	return err
 }
 
-func (f *gateFile) SyncData() error {
-	f.d.before("syncdata")
-	return f.File.SyncData()
+func (f *gateFile) SyncData() (err error) {
+	f.d.gate("syncdata", func() { err = f.syncLocked() })
+	return err
+}
+
+func (f *gateFile) Close() error {
+	if !f.dir {
+		f.d.mu.Lock()
+		delete(f.d.open, f)
+		f.d.mu.Unlock()
+	}
+	return f.File.Close()
 }
 
 // diskDigest hashes the complete content of a (cloned, quiescent) disk so that
@@ -299,9 +374,9 @@ func readAll(fs *vfs.MemFS, p string) ([]byte, bool) {
 
 // tornImage builds the disk found after a crash that persisted every
 // directory operation but only some of the unsynced data blocks: the tree of
-// the kill clone, and per file the synced content (power clone) overlaid with a
+// the kill clone, and per file the content of its last fsync overlaid with a
 // random subset of the 4 KiB blocks that differ from it.
-func tornImage(kill, power *vfs.MemFS, pct int, rng *rand.Rand) *vfs.MemFS {
+func tornImage(kill *vfs.MemFS, syncedByPath map[string][]byte, pct int, rng *rand.Rand) *vfs.MemFS {
 	out := vfs.NewCrashableMem()
 	var walk func(dir string)
 	walk = func(dir string) {
@@ -322,8 +397,8 @@ func tornImage(kill, power *vfs.MemFS, pct int, rng *rand.Rand) *vfs.MemFS {
 				continue
 			}
 			full, _ := readAll(kill, p)
-			synced, ok := readAll(power, p)
-			if !ok || len(synced) > len(full) {
+			synced := syncedByPath[p]
+			if len(synced) > len(full) {
 				synced = nil
 			}
 			res := append([]byte(nil), synced...)
